@@ -7,6 +7,7 @@ import (
 
 	"github.com/nyaruka/goflow/excellent/types"
 	"github.com/nyaruka/goflow/flows"
+	"github.com/nyaruka/goflow/utils"
 
 	"verif/internal/drive"
 	"verif/internal/fw"
@@ -31,10 +32,28 @@ const (
 	stSame           // same length as the base
 	stVariant        // lists: shorter; message text: ["", "pad"] (text-less); category names: identical to the base name
 	stLonger         // longer than the base
+	// multi-element / whitespace translations with empty elements: all of them are NON-empty translations by the statement
+	// (only absent, [] and [""] are empty), so the language that has one wins; what evaluation then does with the empty
+	// elements (empty quick replies and invalid attachments are dropped with an error event, an empty text is an empty
+	// text, a translation of another length than the base arguments is ignored) is applied afterwards.
+	stAllEmpty2  // ["", ""]
+	stAllEmpty3  // ["", "", ""]
+	stEmptyFirst // ["", x]
+	stEmptyLast  // [x, ""]
+	stSpace      // [" "]
+	stSpaceMix   // ["", " "]
 	numStates
 )
 
-var stateNames = []string{"absent", "empty-list", "blank", "same", "variant", "longer"}
+// the first numOldStates states span the exhaustive grid; the others are covered by the second (smaller) grid and by random points
+const numOldStates = stLonger + 1
+
+var stateNames = []string{"absent", "empty-list", "blank", "same", "variant", "longer", "all-empty-2", "all-empty-3", "empty-first", "empty-last", "space", "empty-and-space"}
+
+var c18NewStates = []int{stAllEmpty2, stAllEmpty3, stEmptyFirst, stEmptyLast, stSpace, stSpaceMix}
+
+// states of the other two non-base languages in the second grid
+var c18OtherPairs = [][2]int{{stAbsent, stAbsent}, {stAbsent, stSame}, {stSame, stAbsent}, {stSame, stSame}}
 
 // items of the scenario that carry localizable properties
 const (
@@ -87,6 +106,7 @@ type c18Config struct {
 	BaseAtt int                      `json:"base_attachments"`
 	Country string                   `json:"default_country"`
 	Grid    bool                     `json:"grid_point"`
+	Grid2   bool                     `json:"second_grid_point,omitempty"`
 }
 
 func (c *c18Config) stateTable() map[string]map[string]string {
@@ -139,9 +159,14 @@ func allowedLists() [][]string {
 var c18Allowed = allowedLists()
 var c18Contacts = []string{"", "eng", "spa", "fra", "kin"}
 
-const c18Triples = numStates * numStates * numStates
+const c18Triples = numOldStates * numOldStates * numOldStates
 
-func c18GridSize() int { return len(c18Bases) * len(c18Allowed) * len(c18Contacts) * c18Triples }
+func c18Configs() int { return len(c18Bases) * len(c18Allowed) * len(c18Contacts) }
+
+func c18GridSize() int { return c18Configs() * c18Triples }
+
+// second grid: configuration x new state x which non-base language has it x states of the other two ({absent, same}^2)
+func c18Grid2Size() int { return c18Configs() * len(c18NewStates) * 3 * len(c18OtherPairs) }
 
 func nonBase(base string) []string {
 	var out []string
@@ -162,12 +187,47 @@ func c18GridPoint(i int, r *fw.Rand) *c18Config {
 	cfg.Allowed = c18Allowed[i%len(c18Allowed)]
 	i /= len(c18Allowed)
 	cfg.Base = c18Bases[i%len(c18Bases)]
-	triple := [3]int{t % numStates, (t / numStates) % numStates, t / (numStates * numStates)}
+	triple := [3]int{t % numOldStates, (t / numOldStates) % numOldStates, t / (numOldStates * numOldStates)}
 	nb := nonBase(cfg.Base)
 	for it := 0; it < numItems; it++ {
 		cfg.States[it] = map[string]int{}
 		for j, l := range nb {
-			cfg.States[it][l] = (triple[(j+it)%3] + it) % numStates
+			cfg.States[it][l] = (triple[(j+it)%3] + it) % numOldStates
+		}
+	}
+	cfg.finish(r)
+	return cfg
+}
+
+// c18Grid2Point: one non-base language has a new state, the other two are absent or same-length. Per item the position, the
+// new state and the pair are shifted by bijections, so every item/property meets every (configuration, position, new state,
+// pair) exactly once over the complete second grid.
+func c18Grid2Point(i int, r *fw.Rand) *c18Config {
+	cfg := &c18Config{Grid: true, Grid2: true}
+	o := i % len(c18OtherPairs)
+	i /= len(c18OtherPairs)
+	j := i % 3
+	i /= 3
+	ns := i % len(c18NewStates)
+	i /= len(c18NewStates)
+	cfg.Contact = c18Contacts[i%len(c18Contacts)]
+	i /= len(c18Contacts)
+	cfg.Allowed = c18Allowed[i%len(c18Allowed)]
+	i /= len(c18Allowed)
+	cfg.Base = c18Bases[i%len(c18Bases)]
+	nb := nonBase(cfg.Base)
+	for it := 0; it < numItems; it++ {
+		cfg.States[it] = map[string]int{}
+		pos := (j + it) % 3
+		pair := c18OtherPairs[(o+it)%len(c18OtherPairs)]
+		k := 0
+		for q, l := range nb {
+			if q == pos {
+				cfg.States[it][l] = c18NewStates[(ns+it)%len(c18NewStates)]
+			} else {
+				cfg.States[it][l] = pair[k]
+				k++
+			}
 		}
 	}
 	cfg.finish(r)
@@ -180,7 +240,7 @@ func c18RandomPoint(r *fw.Rand) *c18Config {
 	cfg.Allowed = fw.Pick(r, c18Allowed)
 	cfg.Contact = fw.Pick(r, c18Contacts)
 	// translations are mostly present in the languages that matter
-	ws := []int{25, 8, 10, 30, 12, 15}
+	ws := []int{25, 8, 10, 30, 12, 15, 6, 4, 5, 5, 5, 5}
 	for it := 0; it < numItems; it++ {
 		cfg.States[it] = map[string]int{}
 		for _, l := range nonBase(cfg.Base) {
@@ -223,39 +283,66 @@ func c18Translation(it int, lang string, state int, base []string) ([]string, bo
 	case stBlank:
 		return []string{""}, true
 	}
+	// one marked ("full") element of the item's class in this language
+	full := func(i int) string {
+		switch itemClass(it) {
+		case "msg.text":
+			return "T" + fmt.Sprint(it) + "-" + lang
+		case "msg.attachments":
+			return attURL(lang, i)
+		case "msg.quick_replies":
+			return fmt.Sprintf("QR%d-%s", i, lang)
+		case "set_run_result.category", "category.name":
+			return strings.Replace(base[0], "-base", "", 1) + "-" + lang
+		}
+		if i == 0 {
+			return "pick" + lang
+		}
+		return fmt.Sprintf("zz%d-%s", i, lang)
+	}
+	switch state {
+	case stAllEmpty2:
+		return []string{"", ""}, true
+	case stAllEmpty3:
+		return []string{"", "", ""}, true
+	case stEmptyFirst:
+		// case arguments: the language marker moves to the second argument (has_category looks at every argument)
+		return []string{"", full(0)}, true
+	case stEmptyLast:
+		return []string{full(0), ""}, true
+	case stSpace:
+		return []string{" "}, true
+	case stSpaceMix:
+		return []string{"", " "}, true
+	}
 	switch itemClass(it) {
 	case "msg.text":
 		switch state {
 		case stSame:
-			return []string{"T" + fmt.Sprint(it) + "-" + lang}, true
+			return []string{full(0)}, true
 		case stVariant:
 			return []string{"", "pad-" + lang}, true
 		default:
-			return []string{"T" + fmt.Sprint(it) + "-" + lang, "extra-" + lang}, true
+			return []string{full(0), "extra-" + lang}, true
 		}
 	case "msg.attachments":
 		k := map[int]int{stSame: max(1, n), stVariant: max(1, n-1), stLonger: n + 1}[state]
-		return mk(k, func(i int) string { return attURL(lang, i) }), true
+		return mk(k, full), true
 	case "msg.quick_replies":
 		k := map[int]int{stSame: max(1, n), stVariant: max(1, n-1), stLonger: n + 1}[state]
-		return mk(k, func(i int) string { return fmt.Sprintf("QR%d-%s", i, lang) }), true
+		return mk(k, full), true
 	case "set_run_result.category", "category.name":
 		switch state {
 		case stSame:
-			return []string{strings.Replace(base[0], "-base", "", 1) + "-" + lang}, true
+			return []string{full(0)}, true
 		case stVariant:
 			return []string{base[0]}, true // a translation identical to the base name
 		default:
-			return []string{strings.Replace(base[0], "-base", "", 1) + "-" + lang, "extra"}, true
+			return []string{full(0), "extra"}, true
 		}
 	default: // case.arguments: the first argument selects the language, the others are padding
 		k := map[int]int{stSame: n, stVariant: n - 1, stLonger: n + 1}[state]
-		return mk(k, func(i int) string {
-			if i == 0 {
-				return "pick" + lang
-			}
-			return fmt.Sprintf("zz%d-%s", i, lang)
-		}), true
+		return mk(k, full), true
 	}
 }
 
@@ -337,16 +424,21 @@ func buildC18(cfg *c18Config) *c18Built {
 
 func (p *c18) Rule() string {
 	return fmt.Sprintf("case = one grid point: flow base language (4) x ordered allowed-language list (all %d lists of 0-3 out of 4 languages, with/without the base) x contact language (unset / each of 4: allowed, not allowed, = base) "+
-		"x per (non-base language, item, property) a translation state {absent, [], [\"\"], same length, shorter|text-less [\"\",x]|identical-to-base, longer}; the flow has two send_msg (text+attachments+quick replies; text only), "+
+		"x per (non-base language, item, property) a translation state {absent, [], [\"\"], same length, shorter|text-less [\"\",x]|identical-to-base, longer} or one of the multi-element / whitespace states "+
+		"{[\"\",\"\"], [\"\",\"\",\"\"], [\"\",x], [x,\"\"], [\" \"], [\"\",\" \"]} which are all NON-empty translations by the statement (only absent, [] and [\"\"] are empty); the flow has two send_msg (text+attachments+quick replies; text only), "+
 		"a set_run_result with category, and two switch routers with result names, translated category names and translated case arguments (has_only_text / has_any_word on a literal operand, has_category on a result) whose "+
 		"first argument names its language, so the category chosen reveals the language the arguments came from. All texts are plain and marked with their language. Oracle = the reference chain of the statement applied to "+
-		"our own parse of the generated JSON; for routers the C07 reference router (trusted base: evaluator and test functions) with arguments localized by the reference chain. "+
-		"quick: seeded random grid points with independent states per item; thorough: the complete grid (%d points; every item/property meets every (configuration, state triple) once) plus random points. "+
-		"Non-trivial = the preference chain has >= 2 distinct languages and at least one non-empty translation exists in a chain language; distinct = SHA of the scenario.", len(c18Allowed), c18GridSize())
+		"our own parse of the generated JSON, followed for messages by the documented evaluation of the chosen translation (invalid attachments and empty quick replies dropped, each with an error event that is counted; "+
+		"locale of a text-less message whose chosen attachments / quick replies were all dropped, and of a whitespace-only text: every reading accepted); a category translation with an empty first element shows the base category; for routers the C07 reference router (trusted base: evaluator and test functions) with arguments localized by the reference chain. "+
+		"quick: seeded random grid points with independent states (all 12) per item; thorough: the complete grid over the first 6 states (%d points; every item/property meets every (configuration, state triple) once), "+
+		"a second complete grid (%d points: configuration x new state x which non-base language has it x {absent, same}^2 for the other two; every item meets each once) plus random points over all 12 states (mixtures of new states are sampled, not enumerated). "+
+		"Non-trivial = the preference chain has >= 2 distinct languages and at least one non-empty translation exists in a chain language; distinct = SHA of the scenario.", len(c18Allowed), c18GridSize(), c18Grid2Size())
 }
 
 var c18Directed = []string{"blank-translations", "argument-list-lengths", "contact-language-not-allowed", "base-is-default", "no-allowed-languages", "contact-is-base-default-translated",
-	"text-less-attachments", "text-less-quick-replies", "text-less-empty", "text-less-dropped-attachment", "nothing-translated", "second-preference-wins", "independent-properties"}
+	"text-less-attachments", "text-less-quick-replies", "text-less-empty", "text-less-dropped-attachment", "nothing-translated", "second-preference-wins", "independent-properties",
+	"all-empty-pair-translations", "all-empty-triple-translations", "all-empty-before-base", "first-element-empty-translations", "last-element-empty-translations", "whitespace-translations",
+	"empty-and-whitespace-translations", "text-less-all-empty-lists", "mixed-empty-shapes"}
 
 func (p *c18) Directed() []string { return c18Directed }
 
@@ -354,7 +446,7 @@ const c18ThoroughRandom = 170000
 
 func (p *c18) NumGenerated(tier string) int {
 	if tier == "thorough" {
-		return c18GridSize() + c18ThoroughRandom
+		return c18GridSize() + c18Grid2Size() + c18ThoroughRandom
 	}
 	return 12000
 }
@@ -372,19 +464,29 @@ func (p *c18) Floors(tier string) []string {
 		"win.contact-language", "win.default-language", "win.base-language-first", "win.base-language-after-skips",
 		"skipped.blank", "skipped.empty-list", "skipped.absent", "used.same", "used.variant", "used.longer",
 		"config.contact.unset", "config.contact.allowed", "config.contact.not-allowed", "config.contact.base", "config.allowed.0", "config.allowed.1", "config.allowed.2", "config.allowed.3",
-		"seen.text_and_attachments_differ_in_language", "seen.localized_args_decide", "silent.args_length_mismatch_ignored"}
+		"seen.text_and_attachments_differ_in_language", "seen.localized_args_decide", "silent.args_length_mismatch_ignored",
+		"clause.msg.dropped_elements", "seen.invalid_attachments_of_chosen_translation_dropped", "seen.empty_quick_replies_of_chosen_translation_dropped", "seen.category_translation_with_empty_first_element",
+		"silent.locale_when_attachments_dropped", "silent.locale_when_quick_replies_dropped", "silent.whitespace_text_locale"}
+	for _, st := range c18NewStates {
+		for _, cl := range []string{"msg.text", "msg.attachments", "msg.quick_replies", "set_run_result.category", "category.name", "case.arguments"} {
+			fl = append(fl, "used."+cl+"."+stateNames[st])
+		}
+	}
 	return fl
 }
 
 func (p *c18) ExtraEvidence(tier string, counters map[string]int64) map[string]any {
 	if tier != "thorough" {
-		return map[string]any{"exhaustive": false, "grid_size": c18GridSize()}
+		return map[string]any{"exhaustive": false, "grid_size": c18GridSize(), "second_grid_size": c18Grid2Size()}
 	}
 	return map[string]any{
-		"exhaustive":        counters["grid.points"] == int64(c18GridSize()),
-		"exhaustive_space":  "for every item/property of the scenario: {base language eng/spa/fra/kin} x {all 41 ordered lists of 0-3 allowed languages out of eng/spa/fra/kin} x {contact language unset/eng/spa/fra/kin} x {6 translation states}^3 non-base languages",
+		"exhaustive":        counters["grid.points"] == int64(c18GridSize()) && counters["grid2.points"] == int64(c18Grid2Size()),
+		"exhaustive_space":  "for every item/property of the scenario: {base language eng/spa/fra/kin} x {all 41 ordered lists of 0-3 allowed languages out of eng/spa/fra/kin} x {contact language unset/eng/spa/fra/kin} x {absent, [], [\"\"], same length, shorter|text-less|identical-to-base, longer}^3 non-base languages",
+		"second_grid_space": "for every item/property: the same 820 configurations x {[\"\",\"\"], [\"\",\"\",\"\"], [\"\",x], [x,\"\"], [\" \"], [\"\",\" \"]} in one of the 3 non-base languages x {absent, same length}^2 for the other two; combinations of the new states with each other and with [], [\"\"], shorter, longer in other languages are NOT enumerated, only sampled by the random points (12 states, independent per item and language)",
 		"grid_size":         c18GridSize(),
 		"grid_points_run":   counters["grid.points"],
+		"second_grid_size":  c18Grid2Size(),
+		"second_grid_run":   counters["grid2.points"],
 		"random_points_run": counters["random.points"],
 	}
 }
@@ -396,6 +498,9 @@ func (p *c18) config(c fw.Case) *c18Config {
 	}
 	if c.Tier == "thorough" && c.Gen < c18GridSize() {
 		return c18GridPoint(c.Gen, r)
+	}
+	if c.Tier == "thorough" && c.Gen < c18GridSize()+c18Grid2Size() {
+		return c18Grid2Point(c.Gen-c18GridSize(), r)
 	}
 	return c18RandomPoint(r)
 }
@@ -451,7 +556,9 @@ func (p *c18) Run(c fw.Case) fw.Result {
 		res.Discarded = "unloadable: " + errClass(err.Error())
 		return res
 	}
-	if cfg.Grid {
+	if cfg.Grid2 {
+		res.Count("grid2.points", 1)
+	} else if cfg.Grid {
 		res.Count("grid.points", 1)
 	} else if c.Directed == "" {
 		res.Count("random.points", 1)
@@ -590,21 +697,42 @@ func (p *c18) check(res *fw.Result, h *harness, cfg *c18Config, b *c18Built, rec
 	}
 
 	// ---------------- messages
-	var msgs []sprintEvent
+	// The reference chain decides WHICH translation is taken (statement); what is then sent follows the documented evaluation
+	// of a message (flows/actions/base.go evaluateMessage): an attachment that is not a valid attachment after trimming and a
+	// quick reply that is the empty string are dropped, each with an error event; the text is sent as it is.
+	type sentMsg struct {
+		ev             sprintEvent
+		attErr, qrsErr int // error events of the evaluation that produced this message
+	}
+	var msgs []sentMsg
+	attErr, qrsErr := 0, 0
 	for _, e := range sprintEvents(rec) {
-		if e.Type == "msg_created" && e.Msg != nil {
-			msgs = append(msgs, e)
+		switch {
+		case e.Type == "error" && strings.Contains(e.Text, "attachment evaluated to invalid value"):
+			attErr++
+		case e.Type == "error" && strings.Contains(e.Text, "quick reply evaluated to empty string"):
+			qrsErr++
+		case e.Type == "msg_created" && e.Msg != nil:
+			msgs = append(msgs, sentMsg{e, attErr, qrsErr})
+			attErr, qrsErr = 0, 0
 		}
 	}
 	if len(msgs) != 2 {
 		res.Count("skip.unexpected_message_count", 1)
 	} else {
 		for k, base := range []int{itM1Text, itM2Text} {
-			m := msgs[k].Msg
+			m := msgs[k].ev.Msg
 			name := []string{"m1", "m2"}[k]
 			txt, tl := resolve(base)
 			att, al := resolve(base + 1)
 			qrs, ql := resolve(base + 2)
+			sentAtt, sentQRs := refSendableAttachments(att), refSendableQuickReplies(qrs)
+			if len(sentAtt) != len(att) {
+				res.Count("seen.invalid_attachments_of_chosen_translation_dropped", 1)
+			}
+			if len(sentQRs) != len(qrs) {
+				res.Count("seen.empty_quick_replies_of_chosen_translation_dropped", 1)
+			}
 
 			res.Count("clause.msg.text", 1)
 			if m.Text != txt[0] {
@@ -612,39 +740,76 @@ func (p *c18) check(res *fw.Result, h *harness, cfg *c18Config, b *c18Built, rec
 					map[string]any{"message": name, "observed": m.Text, "expected": txt[0], "expected_language": tl})
 			}
 			res.Count("clause.msg.attachments", 1)
-			if !eqStrings(m.Attachments, att) {
-				viol("msg.attachments", cfg.label(al), cfg.label(langOf(cfg, strings.Join(m.Attachments, " "))), fmt.Sprintf("%s attachments are %v, the reference chain %v gives %v (%s)", name, m.Attachments, chain, att, al),
-					map[string]any{"message": name, "observed": m.Attachments, "expected": att, "expected_language": al})
+			if !eqStrings(m.Attachments, sentAtt) {
+				viol("msg.attachments", cfg.label(al), cfg.label(langOf(cfg, strings.Join(m.Attachments, " "))), fmt.Sprintf("%s attachments are %v, the reference chain %v takes %q (%s) of which %v are sendable", name, m.Attachments, chain, att, al, sentAtt),
+					map[string]any{"message": name, "observed": m.Attachments, "chosen_translation": att, "expected": sentAtt, "expected_language": al})
 			}
 			res.Count("clause.msg.quick_replies", 1)
-			if !eqStrings(m.QuickReplies, qrs) {
-				viol("msg.quick_replies", cfg.label(ql), cfg.label(langOf(cfg, strings.Join(m.QuickReplies, " "))), fmt.Sprintf("%s quick replies are %v, the reference chain %v gives %v (%s)", name, m.QuickReplies, chain, qrs, ql),
-					map[string]any{"message": name, "observed": m.QuickReplies, "expected": qrs, "expected_language": ql})
+			if !eqStrings(m.QuickReplies, sentQRs) {
+				viol("msg.quick_replies", cfg.label(ql), cfg.label(langOf(cfg, strings.Join(m.QuickReplies, " "))), fmt.Sprintf("%s quick replies are %v, the reference chain %v takes %q (%s) of which %v are sendable", name, m.QuickReplies, chain, qrs, ql, sentQRs),
+					map[string]any{"message": name, "observed": m.QuickReplies, "chosen_translation": qrs, "expected": sentQRs, "expected_language": ql})
 			}
-			if tl != al && len(att) > 0 {
+			// the error events of the evaluation tell how many elements of the chosen translation were dropped: a second view on
+			// which translation was taken (an all-empty translation and a fall-through to an empty base list send the same nothing)
+			res.Count("clause.msg.dropped_elements", 1)
+			if wa, wq := len(att)-len(sentAtt), len(qrs)-len(sentQRs); msgs[k].attErr != wa || msgs[k].qrsErr != wq {
+				class, expL := "msg.attachments.dropped", cfg.label(al)
+				if msgs[k].attErr == wa {
+					class, expL = "msg.quick_replies.dropped", cfg.label(ql)
+				}
+				viol(class, expL, "other-translation", fmt.Sprintf("%s was evaluated with %d invalid-attachment and %d empty-quick-reply error events; the reference chain %v takes attachments %q (%s) and quick replies %q (%s), of which %d and %d are dropped", name, msgs[k].attErr, msgs[k].qrsErr, chain, att, al, qrs, ql, wa, wq),
+					map[string]any{"message": name, "observed_attachment_errors": msgs[k].attErr, "observed_quick_reply_errors": msgs[k].qrsErr, "chosen_attachments": att, "chosen_quick_replies": qrs, "attachments_language": al, "quick_replies_language": ql})
+			}
+			if tl != al && len(sentAtt) > 0 {
 				res.Count("seen.text_and_attachments_differ_in_language", 1)
 			}
-			// locale: the language actually used for the text; text-less: attachments, then quick replies
-			want, from := "", ""
+			// locale: the language actually used for the text; text-less: attachments, then quick replies.
+			// The statement does not say whether "its attachments / quick replies" are the chosen translation or what is left of it
+			// after the dropping (the code looks at the chosen translation), nor whether a whitespace-only text is a text: in these
+			// corners every reading is accepted (candidates), elsewhere there is one answer.
+			// text-less reading: accepted languages (nil = the statement names none) and the clause it falls under
+			textless := func() ([]string, string) {
+				switch {
+				case len(sentAtt) > 0:
+					return []string{al}, "from_attachments"
+				case len(att) > 0: // every attachment of the chosen translation was dropped
+					res.Count("silent.locale_when_attachments_dropped", 1)
+					if len(sentQRs) > 0 {
+						return []string{al, ql}, "from_dropped_attachments_or_quick_replies"
+					}
+					return nil, ""
+				case len(sentQRs) > 0:
+					return []string{ql}, "from_quick_replies"
+				case len(qrs) > 0:
+					res.Count("silent.locale_when_quick_replies_dropped", 1)
+				}
+				return nil, ""
+			}
+			var cands []string
+			from := ""
 			switch {
+			case strings.TrimSpace(txt[0]) != "":
+				cands, from = []string{tl}, "from_text"
 			case txt[0] != "":
-				want, from = tl, "from_text"
-			case len(att) > 0:
-				want, from = al, "from_attachments"
-			case len(qrs) > 0:
-				want, from = ql, "from_quick_replies"
+				res.Count("silent.whitespace_text_locale", 1)
+				if c2, _ := textless(); c2 != nil {
+					cands, from = append([]string{tl}, c2...), "from_whitespace_text"
+				}
+			default:
+				cands, from = textless()
 			}
 			obsLang := strings.SplitN(m.Locale, "-", 2)[0]
 			if from == "" {
-				// a message with nothing in it: the statement names no language
+				// a message with nothing (left) in it: the statement names no language
 				res.Count("silent.empty_message_locale", 1)
 				res.Seen("empty_message_locales", m.Locale)
 			} else {
 				res.Count("clause.locale", 1)
 				res.Count("clause.locale."+from, 1)
-				if obsLang != want {
-					viol("msg.locale."+from, cfg.label(want), cfg.label(obsLang), fmt.Sprintf("%s locale is %q but the language used for its %s is %q (text %q from %s, attachments from %s, quick replies from %s)", name, m.Locale, strings.TrimPrefix(from, "from_"), want, txt[0], tl, al, ql),
-						map[string]any{"message": name, "observed_locale": m.Locale, "expected_language": want, "text_language": tl, "attachments_language": al, "quick_replies_language": ql})
+				if !contains(cands, obsLang) {
+					want := cands[0]
+					viol("msg.locale."+from, cfg.label(want), cfg.label(obsLang), fmt.Sprintf("%s locale is %q but the language used for its %s is %q (text %q from %s, attachments %q from %s, quick replies %q from %s)", name, m.Locale, strings.TrimPrefix(from, "from_"), want, txt[0], tl, att, al, qrs, ql),
+						map[string]any{"message": name, "observed_locale": m.Locale, "expected_language": want, "accepted_languages": cands, "text_language": tl, "attachments_language": al, "quick_replies_language": ql})
 				}
 			}
 		}
@@ -657,12 +822,21 @@ func (p *c18) check(res *fw.Result, h *harness, cfg *c18Config, b *c18Built, rec
 		}
 		return r.Category
 	}
+	// a chosen translation whose first element is empty localizes the category to nothing: the result then shows its base
+	// category (flows.Result: an empty category_localized means the category itself)
+	effWant := func(want []string, baseName string) string {
+		if want[0] == "" {
+			res.Count("seen.category_translation_with_empty_first_element", 1)
+			return baseName
+		}
+		return want[0]
+	}
 	if st := storedResult(run, "Res"); st != nil {
 		want, wl := resolve(itSetCategory)
 		res.Count("clause.category_localized.set_run_result", 1)
-		if effective(st) != want[0] {
-			viol("set_run_result.category", cfg.label(wl), cfg.label(langOf(cfg, effective(st))), fmt.Sprintf("set_run_result stored localized category %q (category %q), the reference chain %v gives %q (%s)", st.CategoryLocalized, st.Category, chain, want[0], wl),
-				map[string]any{"stored": st, "expected": want[0], "expected_language": wl})
+		if ew := effWant(want, b.bases[itSetCategory][0]); effective(st) != ew {
+			viol("set_run_result.category", cfg.label(wl), cfg.label(langOf(cfg, effective(st))), fmt.Sprintf("set_run_result stored localized category %q (category %q), the reference chain %v takes %q (%s), i.e. %q", st.CategoryLocalized, st.Category, chain, want, wl, ew),
+				map[string]any{"stored": st, "chosen_translation": want, "expected": ew, "expected_language": wl})
 		}
 	} else {
 		res.Count("skip.no_set_run_result_result", 1)
@@ -745,9 +919,35 @@ func (p *c18) check(res *fw.Result, h *harness, cfg *c18Config, b *c18Built, rec
 		it := rr.cats[d.Cat.UUID]
 		want, wl := resolve(it)
 		res.Count("clause.category_localized.router", 1)
-		if effective(st) != want[0] {
-			viol("category.name", cfg.label(wl), cfg.label(langOf(cfg, effective(st))), fmt.Sprintf("router %s stored localized category %q (category %q), the reference chain %v gives %q (%s)", rr.node, st.CategoryLocalized, st.Category, chain, want[0], wl),
-				map[string]any{"router": rr.node, "stored": st, "expected": want[0], "expected_language": wl})
+		if ew := effWant(want, d.Cat.Name); effective(st) != ew {
+			viol("category.name", cfg.label(wl), cfg.label(langOf(cfg, effective(st))), fmt.Sprintf("router %s stored localized category %q (category %q), the reference chain %v takes %q (%s), i.e. %q", rr.node, st.CategoryLocalized, st.Category, chain, want, wl, ew),
+				map[string]any{"router": rr.node, "stored": st, "chosen_translation": want, "expected": ew, "expected_language": wl})
 		}
 	}
+}
+
+// refSendableAttachments: what evaluation leaves of a chosen attachment list (plain texts): trimmed, invalid ones dropped.
+// utils.IsValidAttachment is part of the trusted base (the property is about which translation is taken, not about what a
+// valid attachment is).
+func refSendableAttachments(att []string) []string {
+	out := []string{}
+	for _, a := range att {
+		a = strings.TrimSpace(a)
+		if a == "" || !utils.IsValidAttachment(a) {
+			continue
+		}
+		out = append(out, a)
+	}
+	return out
+}
+
+// refSendableQuickReplies: what evaluation leaves of a chosen quick reply list (plain texts): empty strings dropped.
+func refSendableQuickReplies(qrs []string) []string {
+	out := []string{}
+	for _, q := range qrs {
+		if q != "" {
+			out = append(out, q)
+		}
+	}
+	return out
 }
